@@ -163,7 +163,11 @@ func runC14(c *Ctx) {
 			okJ := false
 			a0 := ci.Common().Args[0]
 			if tr, ok := a0.(*ssa.Call); ok && core.CalleeName(&tr.Call) == "strings.Trim" && tr.Call.Args[0] == ssa.Value(join.Params[0]) {
-				okJ = true
+				// only brackets may be trimmed: any other byte taken off the host
+				// (a root dot, spaces) changes the name that is written
+				if cs, isK := core.ConstString(tr.Call.Args[1]); isK && strings.Trim(cs, "[]") == "" && cs != "" {
+					okJ = true
+				}
 			} else if a0 == ssa.Value(join.Params[0]) {
 				okJ = true
 			}
